@@ -130,6 +130,17 @@ for label, recs in shapes.items():
                 counts[got[rid][0]["status"]] += 1
             if lc["summary"].get("runs_by_status") != counts:
                 failures.append({"class": "launch-rollup", "shape": label, "cut": cut, "got": lc["summary"].get("runs_by_status"), "want": counts})
+            # documented launch verdict on this prefix: complete exactly when both launch edges were seen and every run is complete,
+            # otherwise partial with the missing edge named (a launch known only through its runs, without its start, is invalid)
+            ls = any(x.get("record_type") == "run_space_start" and x.get("run_space_launch_id") == key[0] for x in prefix)
+            le = any(x.get("record_type") == "run_space_end" and x.get("run_space_launch_id") == key[0] for x in prefix)
+            nruns = sum(counts.values())
+            want_l = "invalid" if (not ls and nruns) else ("complete" if (ls and le and not counts["partial"] and not counts["invalid"]) else "partial")
+            if lc["status"] != want_l:
+                failures.append({"class": "launch-status", "shape": label, "cut": cut, "got": lc["status"], "want": want_l, "start": ls, "end": le, "runs": counts})
+            want_p = {p_ for p_, seen in (("missing_run_space_start", ls), ("missing_run_space_end", le)) if not seen}
+            if set(lc["problems"]) != want_p:
+                failures.append({"class": "launch-missing-edge-naming", "shape": label, "cut": cut, "got": lc["problems"], "want": sorted(want_p)})
         for _ in range(12 if thorough else 4):
             perm = prefix[:]
             rng.shuffle(perm)
